@@ -128,12 +128,29 @@ struct RerunCase {
     n_map: usize,
     zod: bool,
     seam: Seam,
+    /// two more files that define a type of the same name (`Settings`) with different fields, each
+    /// used by a command: whichever definition wins must be the same in every process
+    dup: bool,
+}
+
+fn rerun_project(c: &RerunCase) -> Project {
+    let mut p = multi_file_project(c.n_files);
+    if c.dup {
+        for (f, field) in [("src/audio.rs", "pub volume: u8"), ("src/video.rs", "pub width: u32, pub height: u32")] {
+            let stem = f.trim_start_matches("src/").trim_end_matches(".rs");
+            p.files.push((
+                f.to_string(),
+                format!("use serde::{{Deserialize, Serialize}};\n#[derive(Serialize, Deserialize)]\npub struct Settings {{ {} }}\n#[tauri::command]\npub fn {}_settings() -> Settings {{ todo!() }}\n", field, stem),
+            ));
+        }
+    }
+    p
 }
 
 /// run1 under identity; then for every schedule of run2's choice points: unchanged re-run must not
 /// touch anything. Returns (violations, schedules explored, nontrivial?)
 fn rerun_case(c: &RerunCase, max_sched: usize, free_runs: usize) -> (Vec<Violation>, usize, bool, Vec<String>) {
-    let project = multi_file_project(c.n_files);
+    let project = rerun_project(c);
     let cfg = FileCfg { zod: c.zod, type_mappings: mappings(c.n_map), ..Default::default() };
     let sb = run::Sandbox::new();
     sbx::write_sources(&sb.root, &project, &cfg);
@@ -193,12 +210,13 @@ fn rerun_case(c: &RerunCase, max_sched: usize, free_runs: usize) -> (Vec<Violati
                         "{} files, {} type mappings, {} mode, {}: unchanged non-forced re-run under iteration order {:?} at {:?} -> {}; touched: {}",
                         c.n_files, c.n_map, cfg.mode_name(), c.seam.name(), choice, points, run2.status_string(), t.join(", ")
                     ),
-                    json!({"kind":"rerun","n_files":c.n_files,"n_map":c.n_map,"zod":c.zod,"seam":c.seam.name(),"choice":choice}),
+                    json!({"kind":"rerun","n_files":c.n_files,"n_map":c.n_map,"zod":c.zod,"seam":c.seam.name(),"dup":c.dup,"choice":choice}),
                 )
                 .field("seam", c.seam.name())
                 .field("mode", cfg.mode_name())
                 .field("files", c.n_files.to_string())
                 .field("mappings", c.n_map.to_string())
+                .field("duplicate_type_name", c.dup.to_string())
                 .field("deviating_sites", if deviating.is_empty() { "none".to_string() } else { deviating.join("+") })
                 .rank((c.n_files * 10 + c.n_map) as u64),
             );
@@ -209,7 +227,7 @@ fn rerun_case(c: &RerunCase, max_sched: usize, free_runs: usize) -> (Vec<Violati
     }
     // free-running re-runs (no schedule: fresh random hash seeds per process) for hash iterations
     // that are not behind a hook site, e.g. the type_mappings map feeding the config hash
-    let free = if c.n_map >= 2 || c.n_files >= 2 { free_runs } else { 0 };
+    let free = if c.dup { free_runs * 3 } else if c.n_map >= 2 || c.n_files >= 2 { free_runs } else { 0 };
     for k in 0..free {
         set_mtimes_past(&od);
         let before = stat_dir(&od);
@@ -226,12 +244,13 @@ fn rerun_case(c: &RerunCase, max_sched: usize, free_runs: usize) -> (Vec<Violati
                         "{} files, {} type mappings, {} mode, {}: unchanged non-forced re-run #{} in a fresh process (fresh hash seeds, identity schedule at hooked sites) -> {}; touched: {}",
                         c.n_files, c.n_map, cfg.mode_name(), c.seam.name(), k, r.status_string(), t.join(", ")
                     ),
-                    json!({"kind":"rerun","n_files":c.n_files,"n_map":c.n_map,"zod":c.zod,"seam":c.seam.name(),"choice":"free"}),
+                    json!({"kind":"rerun","n_files":c.n_files,"n_map":c.n_map,"zod":c.zod,"seam":c.seam.name(),"dup":c.dup,"choice":"free"}),
                 )
                 .field("seam", c.seam.name())
                 .field("mode", cfg.mode_name())
                 .field("files", c.n_files.to_string())
                 .field("mappings", c.n_map.to_string())
+                .field("duplicate_type_name", c.dup.to_string())
                 .field("deviating_sites", "unhooked(fresh-seed)")
                 .rank((c.n_files * 10 + c.n_map) as u64),
             );
@@ -250,13 +269,25 @@ enum CacheState {
     WrongVersion,
 }
 
-fn force_case(cache: CacheState, file_force: Option<bool>, flag: bool, seam: Seam, zod: bool) -> (Option<Violation>, String) {
+/// write the configuration where the run will look for it: the standalone typegen.json (CLI: -c,
+/// build path: discovered) or the plugins.typegen section of a discovered ./tauri.conf.json
+fn write_cfg(root: &Path, cfg: &FileCfg, tauri_conf: bool) {
+    if tauri_conf {
+        let _ = std::fs::remove_file(root.join("typegen.json"));
+        std::fs::write(root.join("tauri.conf.json"), cfg.to_tauri_conf_json()).unwrap();
+    } else {
+        std::fs::write(root.join("typegen.json"), cfg.to_json()).unwrap();
+    }
+}
+
+fn force_case(cache: CacheState, file_force: Option<bool>, flag: bool, seam: Seam, zod: bool, tauri_conf: bool) -> (Option<Violation>, String) {
     let project = multi_file_project(2);
     let mut cfg = FileCfg { zod, ..Default::default() };
     let sb = run::Sandbox::new();
     sbx::write_sources(&sb.root, &project, &cfg);
+    write_cfg(&sb.root, &cfg, tauri_conf);
     let od = sbx::out_dir(&sb.root, &cfg);
-    let r1 = sbx::run_generate(&sb.root, seam, &RunOpts::default());
+    let r1 = sbx::run_generate(&sb.root, seam, &RunOpts { discover_config: tauri_conf, ..Default::default() });
     if !r1.success() {
         return (None, "run1 failed".into());
     }
@@ -283,10 +314,10 @@ fn force_case(cache: CacheState, file_force: Option<bool>, flag: bool, seam: Sea
         }
     }
     cfg.force = file_force;
-    std::fs::write(sb.root.join("typegen.json"), cfg.to_json()).unwrap();
+    write_cfg(&sb.root, &cfg, tauri_conf);
     set_mtimes_past(&od);
     let before = stat_dir(&od);
-    let r2 = sbx::run_generate(&sb.root, seam, &RunOpts { force_flag: flag, ..Default::default() });
+    let r2 = sbx::run_generate(&sb.root, seam, &RunOpts { force_flag: flag, discover_config: tauri_conf, ..Default::default() });
     let after = stat_dir(&od);
     let force_in_effect = flag || file_force == Some(true);
     let gen_files = ["types.ts", "commands.ts", "events.ts", "index.ts"];
@@ -301,13 +332,14 @@ fn force_case(cache: CacheState, file_force: Option<bool>, flag: bool, seam: Sea
             "C14",
             class,
             detail,
-            json!({"kind":"force","cache":format!("{:?}",cache),"file_force":file_force,"flag":flag,"seam":seam.name(),"zod":zod}),
+            json!({"kind":"force","cache":format!("{:?}",cache),"file_force":file_force,"flag":flag,"seam":seam.name(),"zod":zod,"tauri_conf":tauri_conf}),
         )
         .field("seam", seam.name())
         .field("mode", if zod { "zod" } else { "none" })
         .field("cache", format!("{:?}", cache))
         .field("file_force", format!("{:?}", file_force))
         .field("flag", flag.to_string())
+        .field("config", if tauri_conf { "tauri.conf.json" } else { "typegen.json" })
     };
     if !r2.success() {
         return (Some(mk("force-run-failed", format!("run exited {} : {}", r2.status_string(), r2.stderr.trim()))), outcome);
@@ -355,13 +387,14 @@ pub fn replay(case: &Value) -> Vec<Violation> {
         };
         let ff = case["file_force"].as_bool();
         let flag = case["flag"].as_bool().unwrap_or(false);
-        force_case(cache, ff, flag, seam, zod).0.into_iter().collect()
+        force_case(cache, ff, flag, seam, zod, case["tauri_conf"].as_bool().unwrap_or(false)).0.into_iter().collect()
     } else {
         let c = RerunCase {
             n_files: case["n_files"].as_u64().unwrap_or(1) as usize,
             n_map: case["n_map"].as_u64().unwrap_or(0) as usize,
             zod,
             seam,
+            dup: case["dup"].as_bool().unwrap_or(false),
         };
         let want: Vec<usize> = case["choice"].as_array().map(|a| a.iter().map(|x| x.as_u64().unwrap_or(0) as usize).collect()).unwrap_or_default();
         let (vs, _, _, _) = rerun_case(&c, usize::MAX, 12);
@@ -376,25 +409,30 @@ pub fn run(tier: Tier) -> CheckResult {
     let mut res = CheckResult::new("C14", "model_checking");
     let deadline = tier_deadline(tier);
     let (max_files, max_map) = match tier {
-        Tier::Quick => (3usize, 2usize),
-        Tier::Thorough => (4usize, 3usize),
+        Tier::Quick => (4usize, 3usize),
+        Tier::Thorough => (5usize, 3usize),
     };
     let mut cases = vec![];
     for n_files in 1..=max_files {
         for n_map in 0..=max_map {
             for zod in [false, true] {
                 for seam in [Seam::Cli, Seam::Build] {
-                    cases.push(RerunCase { n_files, n_map, zod, seam });
+                    cases.push(RerunCase { n_files, n_map, zod, seam, dup: false });
                 }
             }
         }
     }
+    // a type name defined twice (hooked orders of the 1+2 / 2+2 files, then fresh processes)
+    for n_files in [1usize, 2] {
+        for seam in [Seam::Cli, Seam::Build] {
+            cases.push(RerunCase { n_files, n_map: 0, zod: n_files == 2, seam, dup: true });
+        }
+    }
     if tier == Tier::Thorough {
-        // 5 and 6 files: deviation-bounded would need the generic explorer; here the S1 site alone
-        // (120 / 720 orders) with at most one mapping is still a complete product
-        for n_files in [5usize, 6] {
+        // 6 files: the S1 site alone (720 orders) with one mapping is still a complete product
+        for n_files in [6usize] {
             for seam in [Seam::Cli, Seam::Build] {
-                cases.push(RerunCase { n_files, n_map: 1, zod: false, seam });
+                cases.push(RerunCase { n_files, n_map: 1, zod: false, seam, dup: false });
             }
         }
     }
@@ -404,7 +442,7 @@ pub fn run(tier: Tier) -> CheckResult {
             if deadline.passed() {
                 return (vec![], 0, false, vec!["skipped-deadline".into()], (c.n_files, c.n_map));
             }
-            let (v, n, nt, o) = rerun_case(c, 5000, if tier == Tier::Quick { 4 } else { 12 });
+            let (v, n, nt, o) = rerun_case(c, 5000, if tier == Tier::Quick { 8 } else { 24 });
             (v, n, nt, o, (c.n_files, c.n_map))
         })
         .collect();
@@ -434,7 +472,7 @@ pub fn run(tier: Tier) -> CheckResult {
     let mut seen: BTreeSet<String> = BTreeSet::new();
     let mut primary = vec![];
     for v in violations {
-        let k = format!("{}|{}|{}", v.fields["seam"], v.fields["mode"], v.fields["deviating_sites"]);
+        let k = format!("{}|{}|{}|{}", v.fields["seam"], v.fields["mode"], v.fields["deviating_sites"], v.fields["duplicate_type_name"]);
         if seen.insert(k) {
             primary.push(v);
         } else {
@@ -453,13 +491,15 @@ pub fn run(tier: Tier) -> CheckResult {
                         continue; // the build path has no flag
                     }
                     for zod in [false, true] {
-                        fcases.push((cache, ff, flag, seam, zod));
+                        fcases.push((cache, ff, flag, seam, zod, false));
                     }
+                    // the same through the plugins.typegen section of a discovered tauri.conf.json
+                    fcases.push((cache, ff, flag, seam, cache == CacheState::Matching, true));
                 }
             }
         }
     }
-    let fres: Vec<(Option<Violation>, String)> = fcases.par_iter().map(|(c, ff, fl, s, z)| force_case(*c, *ff, *fl, *s, *z)).collect();
+    let fres: Vec<(Option<Violation>, String)> = fcases.par_iter().map(|(c, ff, fl, s, z, tc)| force_case(*c, *ff, *fl, *s, *z, *tc)).collect();
     for (v, o) in fres {
         force_runs += 1;
         outcomes.insert(format!("force:{}", o));
@@ -484,7 +524,7 @@ pub fn run(tier: Tier) -> CheckResult {
         {"kind":"force","cache":"Matching","file_force":false,"flag":true,"seam":"cli"},
         {"kind":"force","cache":"Corrupt","file_force":true,"flag":false,"seam":"build"}
     ]));
-    res.coverage.set("rule", format!("re-run: projects of 1..{} files x 0..{} type mappings x modes x seams; first run under the identity order, then one unchanged non-forced run of the real binary/build path per iteration order of every hook site the second process consults (full product), with all output mtimes set to a fixed past instant beforehand; oracle: no file's bytes or mtime change, none created or deleted. Since the property requires the cache decision to be independent of the order, identity x all-orders is equivalent to all pairs. Force matrix: cache state x file force x flag x seam x mode. A re-run case is non-trivial when the second process consulted a hook site with >= 2 elements.", max_files, max_map));
+    res.coverage.set("rule", format!("re-run: projects of 1..{} files x 0..{} type mappings x modes x seams (plus projects in which two files define a type of the same name, re-run in 3x as many fresh processes); first run under the identity order, then one unchanged non-forced run of the real binary/build path per iteration order of every hook site the second process consults (full product), with all output mtimes set to a fixed past instant beforehand; oracle: no file's bytes or mtime change, none created or deleted. Since the property requires the cache decision to be independent of the order, identity x all-orders is equivalent to all pairs. Force matrix: cache state x file force x flag x seam x mode x configuration source (standalone typegen.json / plugins.typegen of a discovered tauri.conf.json). A re-run case is non-trivial when the second process consulted a hook site with >= 2 elements.", max_files, max_map));
     res.assumptions = vec![
         "hash-iteration orders are owned through verif-hooks sites S1 (file list) and S9 (type_mappings in the config hash); other hash iterations are only covered by the processes' fresh random seeds".into(),
     ];
